@@ -1,4 +1,176 @@
 package main
 
+import (
+	"encoding/json"
+	"fmt"
+	"os"
+	"os/exec"
+	"path/filepath"
+	"sort"
+	"strings"
+	"sync"
+)
+
+// thoroughImpl extends a quick run with
+//  (a) a re-evaluation of all rules under CHA-only call resolution — verdicts
+//      must agree with the VTA run;
+//  (b) the sensitivity suite: every confirmed seeded change kept under
+//      <verif>/seeded that names this property and is marked detected is applied
+//      to a scratch copy of the CURRENT tree and the property's rules must report
+//      at least one violation.
 func thoroughImpl(c *Ctx, spec *PropSpec, repo string, extra map[string]interface{}) {
+	// (a) CHA cross-check
+	P2 := *c.P
+	P2.cg = nil
+	P2.cgMode = "cha"
+	c2 := newCtx(&P2, c.Prop, c.Tier)
+	c2.Known = c.Known
+	for _, r := range spec.Rules {
+		runRule(c2, r)
+	}
+	key := func(o Obligation) string { return o.Rule + "|" + o.Instance }
+	v1 := map[string]Verdict{}
+	for _, o := range c.Obs {
+		v1[key(o)] = o.Verdict
+	}
+	nAgree, nDis := 0, 0
+	for _, o := range c2.Obs {
+		if v, ok := v1[key(o)]; ok && v == o.Verdict {
+			nAgree++
+		} else {
+			nDis++
+			c.add("thorough", "call-graph disagreement on "+key(o), 0, BROKEN, fmt.Sprintf("VTA verdict %q, CHA verdict %q", v, o.Verdict))
+		}
+	}
+	if len(c2.Obs) != len(c.Obs) {
+		c.add("thorough", "call-graph disagreement: obligation counts", 0, BROKEN, fmt.Sprintf("VTA %d obligations, CHA %d", len(c.Obs), len(c2.Obs)))
+	}
+	extra["cha_crosscheck"] = map[string]int{"agree": nAgree, "disagree": nDis}
+	theModsum = nil
+
+	// (b) sensitivity suite
+	verifDir := verifDirOf()
+	seedDir := filepath.Join(verifDir, "seeded")
+	ents, _ := os.ReadDir(seedDir)
+	type seed struct {
+		id, patch, status, by string
+	}
+	var seeds []seed
+	for _, e := range ents {
+		if !e.IsDir() {
+			continue
+		}
+		b, err := os.ReadFile(filepath.Join(seedDir, e.Name(), "meta.json"))
+		if err != nil {
+			continue
+		}
+		var m struct {
+			ID        string `json:"id"`
+			Property  string `json:"property"`
+			Detection struct {
+				Status string `json:"status"`
+				By     string `json:"by"`
+			} `json:"detection"`
+		}
+		if json.Unmarshal(b, &m) != nil || m.Property != c.Prop {
+			continue
+		}
+		seeds = append(seeds, seed{m.ID, filepath.Join(seedDir, e.Name(), "patch.diff"), m.Detection.Status, m.Detection.By})
+	}
+	sort.Slice(seeds, func(i, j int) bool { return seeds[i].id < seeds[j].id })
+	type result struct {
+		ID      string   `json:"seed"`
+		Status  string   `json:"expected"`
+		Outcome string   `json:"outcome"`
+		Rules   []string `json:"reported_by,omitempty"`
+	}
+	results := make([]result, len(seeds))
+	var wg sync.WaitGroup
+	sem := make(chan bool, 3)
+	self, _ := os.Executable()
+	for i, s := range seeds {
+		wg.Add(1)
+		go func(i int, s seed) {
+			defer wg.Done()
+			sem <- true
+			defer func() { <-sem }()
+			res := result{ID: s.id, Status: s.status}
+			tmp, err := os.MkdirTemp("", "zcheck-seed-")
+			if err != nil {
+				res.Outcome = "error: " + err.Error()
+				results[i] = res
+				return
+			}
+			defer os.RemoveAll(tmp)
+			tree := filepath.Join(tmp, "tree")
+			out := filepath.Join(tmp, "out")
+			os.MkdirAll(out, 0o755)
+			if b, err := exec.Command("rsync", "-a", "--exclude", ".git", strings.TrimRight(repo, "/")+"/", tree+"/").CombinedOutput(); err != nil {
+				res.Outcome = "error copying tree: " + string(b)
+				results[i] = res
+				return
+			}
+			os.RemoveAll(filepath.Join(tree, ".git"))
+			ap := exec.Command("git", "apply", "--whitespace=nowarn", s.patch)
+			ap.Dir = tree
+			if b, err := ap.CombinedOutput(); err != nil {
+				res.Outcome = "skipped: patch no longer applies to the current tree (" + strings.TrimSpace(firstLine(string(b))) + ")"
+				results[i] = res
+				return
+			}
+			if kb, err := os.ReadFile(filepath.Join(verifDir, "known_findings.json")); err == nil {
+				os.WriteFile(filepath.Join(out, "known_findings.json"), kb, 0o644)
+			}
+			cmd := exec.Command(self, "-p", c.Prop, "-repo", tree, "-verif", out, "-tier", "quick")
+			ob, _ := cmd.CombinedOutput()
+			rules := map[string]bool{}
+			for _, l := range strings.Split(string(ob), "\n") {
+				if strings.HasPrefix(l, "VIOLATION ") && !strings.HasPrefix(l, "VIOLATION property=") || strings.HasPrefix(l, "UNDECIDED ") {
+					f := strings.Fields(l)
+					if len(f) > 1 {
+						rules[f[1]] = true
+					}
+				}
+			}
+			for r := range rules {
+				res.Rules = append(res.Rules, r)
+			}
+			sort.Strings(res.Rules)
+			if len(res.Rules) > 0 {
+				res.Outcome = "detected"
+			} else if strings.Contains(string(ob), "ERROR:") {
+				res.Outcome = "error: " + firstLine(string(ob))
+			} else {
+				res.Outcome = "not detected"
+			}
+			results[i] = res
+		}(i, s)
+	}
+	wg.Wait()
+	nDet, nExp := 0, 0
+	for _, r := range results {
+		fmt.Printf("SEED %-7s expected=%-12s outcome=%s %v\n", r.ID, r.Status, r.Outcome, r.Rules)
+		if r.Status != "missed" {
+			nExp++
+			if r.Outcome == "detected" {
+				nDet++
+			} else if r.Outcome == "not detected" {
+				c.add("thorough", "checker insensitive to seeded change "+r.ID, 0, BROKEN, "the rules of "+c.Prop+" no longer report the confirmed seeded change "+r.ID+" (applied to a scratch copy of the current tree): the checker lost sensitivity — this is a defect of the checker, not of zenodb")
+			}
+		}
+	}
+	extra["sensitivity_suite"] = results
+	extra["sensitivity_detected"] = nDet
+	extra["sensitivity_expected"] = nExp
 }
+
+func firstLine(s string) string {
+	if i := strings.Index(s, "\n"); i >= 0 {
+		return s[:i]
+	}
+	return s
+}
+
+var verifDirFlag = "/verif"
+
+func verifDirOf() string { return verifDirFlag }
